@@ -22,7 +22,8 @@ head -30 "$tmpdiff"
 rc=$?
 h=$(grep -v "^--- " "$tmpdiff" | grep -v "^+++ " | md5sum | cut -c1-10)
 mkdir -p "$here/selftest/$prop"
-if [ $rc -eq 1 ]; then cp "$tmpdiff" "$here/selftest/$prop/$h.diff"; rm -f "$here/selftest/$prop/$h.missed"
+if [ -n "$MUTNOSAVE" ]; then :
+elif [ $rc -eq 1 ]; then cp "$tmpdiff" "$here/selftest/$prop/$h.diff"; rm -f "$here/selftest/$prop/$h.missed"
 elif [ $rc -eq 0 ]; then cp "$tmpdiff" "$here/selftest/$prop/$h.missed"; fi
 rm -rf "$d" "$tmpdiff"
 exit $rc
